@@ -63,7 +63,7 @@ let eval = function
       let elems = zlist seed in
       match hasher with
       | "toy" ->
-          let mkd = function [ w ] -> w | _ -> failwith "toy digest" in
+          let mkd = function w :: _ -> w | [] -> failwith "toy digest" in
           run_hist Coin.toy_coin_step Coin.toy_grind
             (Coin.toy_coin_new (ebytes field) elems)
             (Stdlib.List.map (parse_op mkd field) ops)
